@@ -69,7 +69,7 @@ CHECKS = {
    note='Trusted: the stand-in reproduces G4ParticleGun::SetParticleMomentum semantics and CLHEP unit values; real Geant4 is not available offline.'),
  'C15': dict(level='fault_enumeration', ref='DESIGN.md §2 C15', engine='c15',
    technique='bounded exhaustive mutation of small seed files (all truncations, all token x adversarial-alphabet replacements, line deletions/duplications, argv prefixes), each mutant loaded in a forked child of the sanitizer build',
-   text='Every byte-prefix truncation, every token replaced by each of 18 adversarial strings, every integer token by every integer in -2..30, every token duplicated and every line deleted/duplicated/extended of a two-event file, a gA p.d.f. table, its encoder-written c.d.f. table, the three catalogue lists and two argument vectors (~5000 mutants quick; pairs of replacements thorough) is fed to the real loader in a forked child of the ASan+UBSan+_GLIBCXX_ASSERTIONS build with a time limit and a single-allocation cap (event files are read from the start and through the skip path of a later start); allowed outcomes: exception, or a load satisfying the loader\'s validity predicate (incl. every stored identifier inside its enumeration); a gA object whose load was refused must then load the unmutated dataset and sample exactly like a new object.',
+   text='Every byte-prefix truncation, every token replaced by each of 18 adversarial strings, every integer token by every integer in -2..50, every token duplicated and every line deleted/duplicated/extended of a two-event file, a gA p.d.f. table, its encoder-written c.d.f. table, the three catalogue lists and two argument vectors (~5000 mutants quick; pairs of replacements thorough) is fed to the real loader in a forked child of the ASan+UBSan+_GLIBCXX_ASSERTIONS build with a time limit and a single-allocation cap (event files are read from the start and through the skip path of a later start); allowed outcomes: exception, or a load satisfying the loader\'s validity predicate (incl. every stored identifier and every particle code inside its enumeration); a gA object whose load was refused must then load the unmutated dataset and sample exactly like a new object.',
    note='Trusted: GCC sanitizers, libstdc++ assertions; validity predicates stated in the evidence.'),
 }
 NOT_YET = {
